@@ -156,6 +156,9 @@ class BitsDom:
             return True                                   # Bool01 fits every width >= 1
         if isinstance(e, ast.UnaryOp) and isinstance(e.op, ast.Not):
             return True
+        if isinstance(e, ast.BoolOp) and all(isinstance(v, ast.Compare) or
+                                             (isinstance(v, ast.UnaryOp) and isinstance(v.op, ast.Not)) for v in e.values):
+            return True                                   # and/or of comparisons is a bool
         if isinstance(e, ast.Call) and norm(e.func) in ('int', 'bool') and len(e.args) == 1:
             return self.in_range(e.args[0], W, at)
         if isinstance(e, ast.Attribute) and e.attr in ('_uint', '_next'):
